@@ -70,6 +70,12 @@ func buildMinimal(s *Start) ([]byte, error) {
 	styles, hasStyles := []byte(nil), false
 	if s.NoStyles != "" {
 		styles, hasStyles = stylesPartOf(s.NoStyles)
+		if hasStyles {
+			var err error
+			if styles, err = restyle(styles, s.StylesNS, s.StylesForm); err != nil {
+				return nil, err
+			}
+		}
 	}
 	var ct strings.Builder
 	ct.WriteString(decl + `<Types xmlns="http://schemas.openxmlformats.org/package/2006/content-types">` +
@@ -95,6 +101,13 @@ func buildMinimal(s *Start) ([]byte, error) {
 			`<w:tc><w:tcPr><w:tcW w:w="4000" w:type="dxa"/></w:tcPr><w:p><w:r><w:t>c2</w:t></w:r></w:p></w:tc></w:tr></w:tbl><w:p/>`)
 	}
 	body.WriteString(`<w:sectPr><w:pgSz w:w="11906" w:h="16838"/></w:sectPr></w:body></w:document>`)
+	main := []byte(body.String())
+	if s.MainNS != "" {
+		var err error
+		if main, err = reprefix(main, s.MainNS); err != nil {
+			return nil, err
+		}
+	}
 	parts := []struct {
 		name string
 		data []byte
@@ -102,7 +115,7 @@ func buildMinimal(s *Start) ([]byte, error) {
 		{"[Content_Types].xml", []byte(ct.String())},
 		{"_rels/.rels", []byte(decl + `<Relationships xmlns="http://schemas.openxmlformats.org/package/2006/relationships">` +
 			`<Relationship Id="rId1" Type="http://schemas.openxmlformats.org/officeDocument/2006/relationships/officeDocument" Target="word/document.xml"/></Relationships>`)},
-		{"word/document.xml", []byte(body.String())},
+		{"word/document.xml", main},
 	}
 	if s.MinRels || hasStyles {
 		rels := decl + `<Relationships xmlns="http://schemas.openxmlformats.org/package/2006/relationships">`
